@@ -330,11 +330,19 @@ type world struct {
 	reg       map[string]int // DER bytes -> id (per case, in order of first appearance)
 	refs      map[int]CrlRef
 	site      *site
+	caches    []*crl.FileCache // two-roots family: caches[k] lives on roots[k]
+	roots     []string
 }
 
 func (w *world) ref(der []byte) *CrlRef {
 	id, ok := w.reg[string(der)]
 	if !ok {
+		// the identity of a CRL is the bytes x509 says it consists of (RevocationList.Raw):
+		// ParseRevocationList reads one SEQUENCE and ignores bytes after it, so "DER + junk"
+		// is the same CRL as "DER" (and Get returns it with Raw = DER)
+		if rl, err := x509.ParseRevocationList(der); err == nil && len(rl.Raw) != len(der) {
+			return w.ref(rl.Raw)
+		}
 		id = len(w.reg)
 		w.reg[string(der)] = id
 		w.refs[id] = describe(id, der, w.p.t0)
@@ -419,7 +427,9 @@ func must(err error) {
 // root is emptied after every case.)
 type site struct {
 	dir, root string
+	root2     string            // a second cache root (outer/cache-b), empty between cases; used by the two-roots family
 	before    map[string]string // full snapshot: every path with mode, size and content hash
+	stampCore string            // the part of stamp that does not involve the times of root2
 	stamp     string            // cheap snapshot: inode, mode, size, mtime, ctime, nlink of every directory and sentinel
 	cases     int
 }
@@ -429,6 +439,13 @@ type site struct {
 // file's, so an unchanged stamp means an unchanged tree; the root itself (whose mtime changes
 // with every entry written) contributes only its inode and mode.
 func (s *site) stampOf() string {
+	core, r2 := s.stamps()
+	return core + r2
+}
+
+// stamps: everything around the roots, and separately the second root (whose times change
+// legitimately in a two-roots case)
+func (s *site) stamps() (string, string) {
 	var b strings.Builder
 	outer := filepath.Dir(s.root)
 	for _, p := range []string{s.dir, filepath.Join(s.dir, "etc"), filepath.Join(s.dir, "etc", "passwd"), filepath.Join(s.dir, "b"),
@@ -446,14 +463,30 @@ func (s *site) stampOf() string {
 	} else {
 		b.WriteString("root:error")
 	}
-	return b.String()
+	r2 := ";root2:error"
+	if fi, err := os.Lstat(s.root2); err == nil {
+		st := fi.Sys().(*syscall.Stat_t)
+		fmt.Fprintf(&b, ";root2:%d:%o", st.Ino, st.Mode)
+		r2 = fmt.Sprintf(";%d.%d:%d.%d:%d", st.Mtim.Sec, st.Mtim.Nsec, st.Ctim.Sec, st.Ctim.Nsec, st.Nlink)
+	}
+	return b.String(), r2
 }
 
 // changed: the cheap comparison after every case, the full one (walk + content hashes) every
 // 256 cases and whenever the cheap one sees a difference.
-func (s *site) changed() bool {
+func (s *site) changed() bool { return s.changedBut(false) }
+
+// changedBut(true): a two-roots case - the second root was used (and emptied again by the caller):
+// its own times are not compared, and the stamp is taken afresh.
+func (s *site) changedBut(usedRoot2 bool) bool {
 	s.cases++
-	if s.stampOf() != s.stamp {
+	core, r2 := s.stamps()
+	if usedRoot2 {
+		if core != s.stampCore {
+			return true
+		}
+		s.stamp = core + r2
+	} else if core+r2 != s.stamp {
 		return true
 	}
 	if s.cases%256 == 0 {
@@ -474,8 +507,11 @@ func newSite(c *common.Ctx, n int) *site {
 	must(os.WriteFile(filepath.Join(outer, "victim.txt"), []byte("sentinel victim"), 0o644))
 	must(os.WriteFile(filepath.Join(outer, "sibling", "keep"), []byte("sentinel keep"), 0o644))
 	must(os.MkdirAll(root, 0o700))
-	s := &site{dir: dir, root: root}
-	s.before = snapshot(dir, root)
+	root2 := filepath.Join(outer, "cache-b")
+	must(os.MkdirAll(root2, 0o700))
+	s := &site{dir: dir, root: root, root2: root2}
+	s.before = snapshot(dir, root) // root2 is empty whenever a snapshot is taken
+	s.stampCore, _ = s.stamps()
 	s.stamp = s.stampOf()
 	return s
 }
@@ -537,7 +573,7 @@ func allCorruptions() []corruption {
 	for a := 0; a < 4; a++ {
 		out = append(out, corruption{"trailing", a})
 	}
-	out = append(out, corruption{"casekeys", 0})
+	out = append(out, corruption{"casekeys", 0}, corruption{"dertrail", 0}, corruption{"dertrail", 1})
 	return out
 }
 
@@ -664,6 +700,18 @@ func (w *world) apply(c *common.Ctx, co corruption, cur []byte) []byte {
 		default:
 			return append([]byte("\xef\xbb\xbf"), cur...) // byte order mark
 		}
+	case "dertrail":
+		// bytes after the CRL's SEQUENCE inside the base64 field: x509 ignores them
+		base, delta := m.BaseCRL, m.DeltaCRL
+		if len(base) == 0 {
+			base = p[pFresh75a].der
+		}
+		if co.arg%2 == 1 && delta != nil {
+			delta = append(append([]byte{}, delta...), 0, 1, 2)
+		} else {
+			base = append(append([]byte{}, base...), 0)
+		}
+		return entryJSON(base, delta)
 	case "casekeys":
 		if m.DeltaCRL == nil {
 			return []byte(`{"BASECRL":"` + b64(m.BaseCRL) + `"}`)
@@ -694,26 +742,54 @@ func tooClose(r *CrlRef) bool {
 
 type planOp struct {
 	kind        string // setNil | set | get | plant
+	cache       int    // two-roots plans: which cache value (0: first root, 1: second root)
 	url         int
 	base, delta int // pool indices, -1 = nil
 	co          corruption
 }
 
 type plan struct {
-	urls []string
-	ops  []planOp
+	urls     []string
+	ops      []planOp
+	twoRoots bool // two FileCache values on two DIFFERENT roots in this process, used with the same URLs
+}
+
+// A two-roots case is judged with each cache against its own abstract map: the abstract URL table
+// has one entry per (cache, URL) pair - entry k*len(urls)+u - so the model keeps the two caches'
+// contents apart. The model only needs the digests of distinct entries to differ (its file names
+// are not compared with the real ones; existence, strays and the shape of the real names are
+// observed per root by the harness), so entry (k, u) carries the SHA-256 of "cache k" NUL url.
+func entryText(k int, u string) string { return fmt.Sprintf("[cache %d] %s", k, u) }
+func entryDigest(k int, u string) []int {
+	return digestInts(fmt.Sprintf("cache %d\x00%s", k, u))
 }
 
 func (w *world) execute(c *common.Ctx, pl plan) (Input, Obs) {
 	ctx := context.Background()
 	in := Input{Urls: []Url{}, Ops: []Op{}}
 	obs := Obs{Results: []Out{}, Present: []bool{}}
-	for _, u := range pl.urls {
-		in.Urls = append(in.Urls, Url{Text: u, Digest: digestInts(u)})
+	if pl.twoRoots {
+		c2, err := crl.NewFileCache(w.site.root2)
+		must(err)
+		w.caches, w.roots = []*crl.FileCache{w.cache, c2}, []string{w.root, w.site.root2}
+		for k := range w.roots {
+			for _, u := range pl.urls {
+				in.Urls = append(in.Urls, Url{Text: entryText(k, u), Digest: entryDigest(k, u)})
+			}
+		}
+	} else {
+		for _, u := range pl.urls {
+			in.Urls = append(in.Urls, Url{Text: u, Digest: digestInts(u)})
+		}
 	}
 	for _, po := range pl.ops {
 		url := pl.urls[po.url]
 		op := Op{Kind: po.kind, Url: po.url}
+		if pl.twoRoots {
+			w.cache, w.root = w.caches[po.cache], w.roots[po.cache]
+			op.Url = po.cache*len(pl.urls) + po.url
+			c.Count(fmt.Sprintf("two-roots-op=cache%d", po.cache))
+		}
 		var out Out
 		switch po.kind {
 		case "setNil":
@@ -794,6 +870,9 @@ func (w *world) execute(c *common.Ctx, pl plan) (Input, Obs) {
 		in.Ops = append(in.Ops, op)
 		obs.Results = append(obs.Results, out)
 	}
+	if pl.twoRoots {
+		w.cache, w.root = w.caches[0], w.roots[0]
+	}
 	w.finalState(pl.urls, &obs)
 	return in, obs
 }
@@ -801,30 +880,46 @@ func (w *world) execute(c *common.Ctx, pl plan) (Input, Obs) {
 // finalState: which entry files exist, what else lives in the root, did anything around it change;
 // then empties the root for the next case.
 func (w *world) finalState(urls []string, obs *Obs) {
-	names := map[string]bool{}
-	for _, u := range urls {
-		n := hexName(u)
-		names[n] = true
-		fi, err := os.Lstat(filepath.Join(w.root, n))
-		obs.Present = append(obs.Present, err == nil && fi.Mode().IsRegular())
+	roots := []string{w.root}
+	if w.roots != nil {
+		roots = w.roots
 	}
-	entries, err := os.ReadDir(w.root)
-	must(err)
 	obs.AllHex = true
-	for _, e := range entries {
-		obs.Files++
-		if !names[e.Name()] {
-			obs.Stray++
+	var all []string
+	for _, root := range roots {
+		names := map[string]bool{}
+		for _, u := range urls {
+			n := hexName(u)
+			names[n] = true
+			fi, err := os.Lstat(filepath.Join(root, n))
+			obs.Present = append(obs.Present, err == nil && fi.Mode().IsRegular())
 		}
-		if !e.Type().IsRegular() || !is64Hex(e.Name()) {
-			obs.AllHex = false
+		entries, err := os.ReadDir(root)
+		must(err)
+		for _, e := range entries {
+			obs.Files++
+			if !names[e.Name()] {
+				obs.Stray++
+			}
+			if !e.Type().IsRegular() || !is64Hex(e.Name()) {
+				obs.AllHex = false
+			}
+			all = append(all, filepath.Join(root, e.Name()))
 		}
 	}
-	obs.OutsideChanged = w.site.changed()
+	if w.roots != nil {
+		// the second root is emptied before the surroundings are compared (it is empty in the snapshot)
+		for _, p := range all {
+			if strings.HasPrefix(p, w.site.root2+string(filepath.Separator)) {
+				os.RemoveAll(p)
+			}
+		}
+	}
+	obs.OutsideChanged = w.site.changedBut(w.roots != nil)
 	if !obs.OutsideChanged {
-		// empty the root for the next case (a damaged site is rebuilt by the caller)
-		for _, e := range entries {
-			os.RemoveAll(filepath.Join(w.root, e.Name()))
+		// empty the roots for the next case (a damaged site is rebuilt by the caller)
+		for _, p := range all {
+			os.RemoveAll(p)
 		}
 	}
 }
@@ -1114,6 +1209,47 @@ func Run(c *common.Ctx) error {
 			{kind: "set", url: 0, base: pFresh75a, delta: pDeltaFresh75}, {kind: "get", url: 1}, {kind: "get", url: 2},
 			{kind: "set", url: 1, base: pFresh75b, delta: -1}, {kind: "get", url: 0}, {kind: "get", url: 1},
 			{kind: "plant", url: 0, base: pFresh75a, delta: -1, co: corruption{"truncate", 3}}, {kind: "get", url: 0}, {kind: "get", url: 1}}}, "D:long-urls")
+	}
+	// R. two FileCache values on two DIFFERENT roots in one process, used with the same URLs: each is
+	// judged against its own abstract map (what one cache stores must never show in, or disturb, the other)
+	rURLs := [][]string{{"http://a/crl", "http://a/crl/"}, {"../../etc/passwd", "http://A/crl"}, {g.prefix[6], g.prefix[7]},
+		{hexName("http://a/crl"), "http://a/crl"}, {"", "http://crl.example.com/ca-a.crl"}}
+	for _, us := range rURLs {
+		for first := 0; first < 2; first++ {
+			a, b := first, 1-first
+			g.run(plan{urls: us, twoRoots: true, ops: []planOp{
+				{kind: "get", cache: b, url: 0},
+				{kind: "set", cache: a, url: 0, base: pFresh75a, delta: -1}, {kind: "get", cache: b, url: 0}, {kind: "get", cache: a, url: 0},
+				{kind: "set", cache: b, url: 0, base: pFresh75b, delta: pDeltaFresh75}, {kind: "get", cache: a, url: 0}, {kind: "get", cache: b, url: 0},
+				{kind: "set", cache: a, url: 1, base: pFresh3600, delta: -1}, {kind: "get", cache: b, url: 1}, {kind: "get", cache: a, url: 1},
+				{kind: "plant", cache: a, url: 0, base: pFresh75a, delta: -1, co: corruption{"truncate", 3}}, {kind: "get", cache: b, url: 0}, {kind: "get", cache: a, url: 0},
+				{kind: "set", cache: a, url: 0, base: pExp75a, delta: -1}, {kind: "get", cache: a, url: 0}, {kind: "get", cache: b, url: 0},
+				{kind: "setNil", cache: b, url: 0}, {kind: "get", cache: b, url: 0},
+				{kind: "set", cache: b, url: 0, base: pExp3600, delta: -1}, {kind: "get", cache: b, url: 0}, {kind: "get", cache: a, url: 0},
+				{kind: "set", cache: a, url: 0, base: pFresh30d, delta: -1}, {kind: "get", cache: b, url: 0}, {kind: "get", cache: a, url: 0}}}, "R:two-roots")
+			// only the second-listed cache stores anything; the other must stay empty
+			g.run(plan{urls: us, twoRoots: true, ops: []planOp{
+				{kind: "set", cache: b, url: 0, base: pFresh75a, delta: -1}, {kind: "set", cache: b, url: 1, base: pFresh75b, delta: -1},
+				{kind: "get", cache: a, url: 0}, {kind: "get", cache: a, url: 1}, {kind: "get", cache: b, url: 0}, {kind: "get", cache: b, url: 1}}}, "R:two-roots")
+		}
+	}
+	nr := 300
+	if c.Thorough() {
+		nr = 4000
+	}
+	for i := 0; i < nr; i++ {
+		pl := g.randomCase()
+		pl.twoRoots = true
+		pl.ops = pl.ops[:len(pl.ops)-len(pl.urls)] // the closing reads are re-done per cache below
+		for j := range pl.ops {
+			pl.ops[j].cache = c.Rand.Intn(2)
+		}
+		for k := 0; k < 2; k++ {
+			for u := range pl.urls {
+				pl.ops = append(pl.ops, planOp{kind: "get", cache: k, url: u})
+			}
+		}
+		g.run(pl, "R:two-roots-random")
 	}
 	// F, G. overlapping Set calls: pinned interleavings and a free-running stress (concurrent.go)
 	runConcurrent(g, c)
